@@ -38,6 +38,11 @@ class GroupBy(DynamicConnectLayer):
 
         return EdgesBag(inputs, [output], edges, None)
 
+    def _connect(self, previous: EdgesBag) -> EdgesBag:
+        # the container already holds a copy of the previous layer and is keyed by the new ids:
+        # the previous `id` field (e.g. the switch of a Merge) must not be applied to the group keys
+        return self._prepare_container(previous)
+
     def _prepare_container(self, previous: EdgesBag) -> EdgesBag:
         details = Details(type(self))
         main = previous.freeze(details)
